@@ -3,6 +3,9 @@
  * (lib/fstree/src/fstree.c, hardlink.c of the working tree) on the same lines as `sqfsmodel c07`:
  *
  *   hl <k>:<namehex>:<targethex> ...      k = d(ir) f(ile) s(ymlink) l(hard link)
+ *      c:<namehex>:<decimal>              set-up step, no library call: node->link_count = <decimal> on the node
+ *                                         the path names (reaches the `link_count == 0xFFFFFFFF` guards of
+ *                                         resolve_link and mknode without 2^32 entries)
  *
  * answers  adderr <i> <ERRNO> | err <pathhex> <ERRNO> | ok R<n> {L<targetpathhex> | N<link_count>}... | timeout
  *
@@ -35,6 +38,7 @@ static const char *errname(int e)
 	case EPERM: return "EPERM";
 	case EINVAL: return "EINVAL";
 	case EEXIST: return "EEXIST";
+	case ENAMETOOLONG: return "ENAMETOOLONG";
 	default: return "E?";
 	}
 }
@@ -42,11 +46,11 @@ static const char *errname(int e)
 static void print_path(tree_node_t *n)
 {
 	/* names joined by '/', no leading slash (own walk: independent of get_path.c) */
-	tree_node_t *chain[4096];
+	static tree_node_t *chain[16384];
 	size_t k = 0, i;
 	static unsigned char buf[1 << 20];
 	size_t len = 0;
-	for (; n != NULL && n->parent != NULL && k < 4096; n = n->parent) chain[k++] = n;
+	for (; n != NULL && n->parent != NULL && k < 16384; n = n->parent) chain[k++] = n;
 	for (i = k; i-- > 0;) {
 		size_t l = strlen(chain[i]->name);
 		if (len) buf[len++] = '/';
@@ -57,7 +61,7 @@ static void print_path(tree_node_t *n)
 }
 
 #define MAXENT 4096
-static struct { int kind; unsigned char *name, *target; } ents[MAXENT];
+static struct { int kind; unsigned char *name, *target; unsigned long poke; } ents[MAXENT];
 
 int main(void)
 {
@@ -77,11 +81,16 @@ int main(void)
 		if (!tok || strcmp(tok, "hl") != 0) { puts("bad-op"); continue; }
 		while ((tok = strtok_r(NULL, " \n", &save)) != NULL) {
 			char *c1 = strchr(tok, ':'), *c2 = c1 ? strchr(c1 + 1, ':') : NULL;
-			if (!c1 || !c2 || c1 != tok + 1 || n >= MAXENT || !strchr("dfsl", tok[0])) { bad = 1; break; }
+			if (!c1 || !c2 || c1 != tok + 1 || n >= MAXENT || !strchr("dfslc", tok[0])) { bad = 1; break; }
 			*c1 = *c2 = '\0';
 			ents[n].kind = tok[0];
 			if (hex_decode_tok(c1 + 1, &ents[n].name, 1) < 0) { bad = 1; break; }
-			if (hex_decode_tok(c2 + 1, &ents[n].target, 1) < 0) { free(ents[n].name); bad = 1; break; }
+			if (tok[0] == 'c') {
+				char *endp = NULL;
+				ents[n].poke = strtoul(c2 + 1, &endp, 10);
+				if (endp == c2 + 1 || *endp != '\0' || ents[n].poke > 0xFFFFFFFFUL || c2[1] == '-' || c2[1] == '+' || c2[1] == ' ') { free(ents[n].name); bad = 1; break; }
+				ents[n].target = NULL;
+			} else if (hex_decode_tok(c2 + 1, &ents[n].target, 1) < 0) { free(ents[n].name); bad = 1; break; }
 			{
 				/* callers canonicalise names first: refuse anything that is not canonical already */
 				char *copy = strdup((char *)ents[n].name);
@@ -101,6 +110,14 @@ int main(void)
 			size_t nl = strlen((char *)ents[i].name);
 			sqfs_dir_entry_t *ent = calloc(1, sizeof(*ent) + nl + 1);
 			tree_node_t *r;
+			if (ents[i].kind == 'c') {
+				errno = 0;
+				r = fstree_get_node_by_path(&fs, fs.root, (char *)ents[i].name, false, false);
+				free(ent);
+				if (r == NULL) { printf("adderr %zu %s\n", i, errname(errno)); break; }
+				r->link_count = (sqfs_u32)ents[i].poke;
+				continue;
+			}
 			memcpy(ent->name, ents[i].name, nl);
 			switch (ents[i].kind) {
 			case 'd': ent->mode = S_IFDIR | 0755; break;
